@@ -60,7 +60,10 @@ WORDS = TAME_WORDS + ["../y", "-1", "a_b", "-", "--", "+x", "a:b", "%d", "a@b", 
 QUOTED = ["'a b'", '"c d"', "'x;y'", '"p && q"', "'(r'", '")"', '"it\'s"', "''", '"a|b"', "'>'", "a'b c'd", '--opt="v w"', "'and'", '"or"',
           '"$XV"', "'$XV'", "r'\\n'"]
 VARS = ["$XV", "${'XV'}", "$XV/sub", "pre$XV"]
-PYSUB = ["@('p' + 'q')", "@(1+2)", "@(['m','n'])", "@(pv)", "x@('y')z", "@(pv.upper())", "@('a b')", "@( 'sp' )", "@(len([1,2]))"]
+PYSUB = ["@('p' + 'q')", "@(1+2)", "@(['m','n'])", "@(pv)", "x@('y')z", "@(pv.upper())", "@('a b')", "@( 'sp' )", "@(len([1,2]))",
+         # @( ) holds arbitrary Python: boolean operators, conditionals, comparisons, nested brackets, comprehensions, strings with operators
+         "@(pv or 'd')", "@(pv and 'q')", "@(not pv)", "@('a' if pv else 'b')", "@(pv == 'pyval')", "@((1, 2))", "@([c for c in 'ab'])",
+         "@('x' or 'y' and 'z')", "@(f'{pv}')", "@('&&')", "@(pv in ('pyval',))", "@({'k': 1}['k'])", "@(str(1 if pv else 2))"]
 CAPT = ["$(t0 inner)", "@$(t0 i1 i2)", "$(t0 i | t0 j)", "$(t1 inner)", "$( t0 sp )", "-$(t0 x)"]
 REDIR = ["> o1.txt", ">> o1.txt", "2> e1.txt", "< in.txt", "o> o2.txt", "e> e2.txt", "a> all.txt", "&> all2.txt", "2>&1", "e>o", "err>out", "1> o3.txt",
          ">o4.txt", "2>e4.txt", "> 'o 5.txt'", "> @('o6' + '.txt')", "> $XV.txt"]
@@ -170,6 +173,33 @@ class G:
         return st
 
 
+IDENT_CMDS = ["t0", "ls", "echo", "g0", "t1", "g1"]
+DECOYS = [
+    "def _d{k}({a}, {b}=0, *{c}, **{d}):\n    return {a}",
+    "def _d{k}({a}, /, {b}, *, {c}=None):\n    return ({a}, {b}, {c})",
+    "_l{k} = lambda {a}, {b}=1: {a}",
+    "_c{k} = [{a} for {a} in range(2)]",
+    "_s{k} = {{{a}: {b} for {a}, {b} in [(1, 2)]}}",
+    "class _K{k}:\n    {a} = 1\n    def m(self, {b}):\n        return {b}",
+    "def _e{k}():\n    {a} = 1\n    {b}: int = 2\n    return {a}",
+    "def _g{k}():\n    import os as {a}\n    for {b} in range(1):\n        pass\n    with _cm() as {c}:\n        pass",
+    "def _h{k}():\n    def {a}({b}):\n        return {b}\n    return {a}",
+    "async def _a{k}({a}, *{b}):\n    return {a}",
+    "{a} = 1; del {a}",
+    "_n{k} = (lambda: [{a} for {a}, {b} in [(1, 2)]])()",
+]
+
+
+def gen_decoys(rng):
+    """Python statements that bind command NAMES in inner scopes only (parameters, lambda / comprehension variables, class attributes,
+    function locals) or bind and delete them: at the command's position those names are NOT bound"""
+    out = []
+    for k in range(rng.choice([0, 0, 1, 1, 2])):
+        a, b, c, d = rng.sample(IDENT_CMDS + ["a", "bb", "l", "c", "la", "x"], 4)
+        out.append(rng.choice(DECOYS).format(k=k, a=a, b=b, c=c, d=d))
+    return out
+
+
 def gen_case(rng, level, accept=None):
     depth = rng.choice([0, 0, 0, 1, 1, 2, 3, 4])
     blocks = [{"b": rng.randrange(len(BLOCKS)), "w": rng.choice(["  ", "    ", "    ", "\t", " ", "        "]),
@@ -180,7 +210,8 @@ def gen_case(rng, level, accept=None):
     for i in range(nst):
         def ok(st):
             # (clean grammar only) a statement of >= 3 physical lines may only come last: see K_NOPROGRESS
-            return accept(st) and (i == nst - 1 or n_phys(st) < 3)
+            # … and a boolean operator inside @( ) / $( ) only in a case of its own (it sends the WHOLE input through the greedy pass)
+            return accept(st) and (i == nst - 1 or n_phys(st) < 3) and (bool_sub_kind(st) is None or nst == 1)
 
         st = g.statement(depth)
         tries = 0
@@ -190,7 +221,7 @@ def gen_case(rng, level, accept=None):
         if accept is not None and not ok(st):
             st = {"cmd": ["seg", [["", "t0"], [" ", "a"]], "bare"], "pos": "line", "fill": None}
         stmts.append(st)
-    return {"blocks": blocks, "stmts": stmts}
+    return {"blocks": blocks, "stmts": stmts, "decoys": gen_decoys(rng)}
 
 
 # ---------------------------------------------------------------------------------------- rendering
@@ -230,7 +261,7 @@ def render_stmt(st, ind, explicit):
 
 
 def render_case(case, explicit, only=None):
-    lines, ind, closers = [], "", []
+    lines, ind, closers = list(case.get("decoys") or []), "", []
     for d, b in enumerate(case["blocks"]):
         _, head, closer = BLOCKS[b["b"]]
         inner = ind + b["w"]
@@ -324,6 +355,37 @@ def error_at_following_operator(seg_text):
     return _EC[seg_text]
 
 
+def has_bool_in_sub(text):
+    """an and / or / && / || (outside quotes) inside a parenthesised argument such as @( … ) or $( … )"""
+    import re
+
+    t = re.sub(r"'[^']*'|\"[^\"]*\"", "Q", text)
+    depth = 0
+    i = 0
+    while i < len(t):
+        c = t[i]
+        if c == "(":
+            depth += 1
+        elif c == ")":
+            depth = max(0, depth - 1)
+        elif depth and re.match(r"(and\b|or\b|&&|\|\|)", t[i:]) and (i == 0 or not (t[i - 1].isalnum() or t[i - 1] == "_")):
+            return True
+        i += 1
+    return False
+
+
+def bool_sub_kind(st):
+    """None: no bare segment has a boolean operator inside a parenthesised argument; "safe": the statement is ONE command / pipeline alone
+    on its line whose only parenthesised word is that argument (the shape the greedy pass wraps from the line start); else "unsafe" """
+    segs = [it for it in list(flat(st["cmd"])) + (list(flat(st["cmd2"])) if st["pos"] == "cmd;cmd" else []) if it[0] == "seg"]
+    hot = [it for it in segs if it[2][2] == "bare" and has_bool_in_sub(it[1])]
+    if not hot:
+        return None
+    if st["pos"] in ("line", "trailing-comment") and st["cmd"][0] == "seg" and sum("(" in t for _, t in st["cmd"][1]) == 1 and not has_cont(st["cmd"]):
+        return "safe"
+    return "unsafe"
+
+
 NONPLAIN_LPAREN = ("!(", "$(", "@(", "@$(", "@!(")
 
 
@@ -383,6 +445,9 @@ def features(st):
             depth -= 1
         elif it[0] == "seg" and depth > 0 and it[2][2] == "bare" and not pyparsable(it[1])[0] and error_at_following_operator(it[1]):
             out.add(K_GREEDY_GROUP)
+    # -- G: and / or / && / || inside an @( ) / $( ) argument, except in the one shape where the greedy pass is known to cope
+    if bool_sub_kind(st) == "unsafe":
+        out.add(K_BOOL_IN_SUB)
     # -- C: a Python-parsable operand that is not the last thing on a logical line spanning several physical lines
     if multi:
         for k, (i, it) in enumerate(segs):
@@ -390,7 +455,7 @@ def features(st):
                 out.add(K_CONT)
     # -- D: a Python-parsable operand holding a `$` construct, followed by more of the statement
     for k, (i, it) in enumerate(segs):
-        if it[2][2] == "bare" and "$" in it[1] and pyparsable(it[1])[0] and i + 1 < len(items):
+        if it[2][2] == "bare" and "$" in it[1] and pyparsable(it[1])[0] and len(items) > 1:
             out.add(K_DOLLAR)
     return out
 
@@ -403,7 +468,9 @@ K_DOLLAR = "python-looking-operand-with-dollar-construct-replaced-by-line-tail"
 K_GREEDY_GROUP = "incomplete-python-operand-in-group-wraps-the-whole-group"
 K_NOPROGRESS = "no-progress-test-fooled-after-continued-line-collapse"
 K_CAP = "retry-cap-rejects-input-with-many-command-segments"
+K_BOOL_IN_SUB = "boolean-operator-inside-substitution-ends-the-wrap-window"
 SYNTAX_KEYS = {K_ASSIGN, K_RPAREN_EOL}  # these show as a SyntaxError of the bare form
+ANY_KIND_KEYS = {K_GREEDY_GROUP, K_BOOL_IN_SUB}  # the whole-group wrap may or may not parse, depending on what the group holds
 WRONG_RUN_KEYS = {K_STALE_PAREN, K_CONT, K_DOLLAR, K_GREEDY_GROUP}  # these run the wrong commands (or stay Python: NameError)
 
 
@@ -442,6 +509,10 @@ def tree_variants(node):
 
 
 def case_variants(case):
+    for i in range(len(case.get("decoys") or [])):
+        c = copy.deepcopy(case)
+        del c["decoys"][i]
+        yield c
     for i in range(len(case["blocks"])):
         c = copy.deepcopy(case)
         del c["blocks"][i]
@@ -645,7 +716,9 @@ def verdict(r, background=False):
 
 
 def has_bg(case):
-    return any(t == "&" for st in case["stmts"] for it in flat(st["cmd"]) if it[0] == "seg" for _, t in it[2][1])
+    """does anything run concurrently with what follows it (a trailing `&`, or an explicit `!( )` whose value nobody demands)?
+    then the order of the log entries is not determined and logs are compared as multisets"""
+    return any(it[2][2] == "!(" or any(t == "&" for _, t in it[2][1]) for st in case["stmts"] for it in flat(st["cmd"]) if it[0] == "seg")
 
 
 def pair_of(case, only=None):
@@ -679,12 +752,17 @@ def classify(case, r):
         # those lines (line numbers shift) and the no-progress test of the recovery loop then compares coordinates of different texts
         kind_syntax = bool(r["bare"]["exc"]) and r["bare"]["exc"][0] == "syntax"
         long_before = any(n_phys(st) >= 3 for st in case["stmts"][:-1])
-        return (K_NOPROGRESS if kind_syntax and long_before else None), failing
+        if kind_syntax and long_before:
+            return K_NOPROGRESS, failing
+        # … another: a statement with and/or inside @( ) / $( ) makes the non-greedy attempt fail, the whole input is re-done greedily
+        if any(bool_sub_kind(st) is not None for st in case["stmts"]):
+            return K_BOOL_IN_SUB, failing
+        return None, failing
     keys, unexplained = [], []
     for i in failing:
         one = run_pairs([pair_of(case, i)])[0] if len(case["stmts"]) > 1 else r
         syn = isinstance(one, dict) and "bare" in one and bool(one["bare"]["exc"]) and one["bare"]["exc"][0] == "syntax"
-        ks = sorted(k for k in features(case["stmts"][i]) if (k in SYNTAX_KEYS) == syn)
+        ks = sorted(k for k in features(case["stmts"][i]) if (k in SYNTAX_KEYS) == syn or k in ANY_KIND_KEYS)
         w1, l1 = wraps_needed({"blocks": case["blocks"], "stmts": [case["stmts"][i]]})
         if syn and w1 > 2 * l1 + 9:
             ks = [K_CAP] + ks
@@ -781,7 +859,7 @@ def report(ctx, name, case, r, v, clean):
     witness = case
     if key is None and failing and len(case["stmts"]) > 1:
         # point at a statement that fails on its own and carries none of the known triggers
-        only = {"blocks": case["blocks"], "stmts": [case["stmts"][failing[0]]]}
+        only = {"blocks": case["blocks"], "stmts": [case["stmts"][failing[0]]], "decoys": case.get("decoys")}
         if verdict(run_pairs([pair_of(only)])[0], bg) == v:
             case = witness = only
     if key is None:
@@ -924,6 +1002,8 @@ def internal_trigger(f, s):
         import re
 
         return any(re.match(r"\s*(!\[\])*\]", ln) for ln in s.split("\n"))
+    if t == "comma":
+        return any("," in ln.split("#")[0] for ln in s.split("\n"))
     if t == "star-before-bang":
         import re
 
@@ -1139,7 +1219,8 @@ def inside_wrapped(line, pos):
 
 
 def wrap_key(ctx, line, mincol, maxcol, rl):
-    return None
+    """the one known way a realistic window splits a token: find_next_break / subproc_toks stop at an and/or inside @( ) / $( )"""
+    return K_BOOL_IN_SUB if has_bool_in_sub(line) else None
 
 
 # ====================================================================================== known findings, run, search, replay
